@@ -9,6 +9,9 @@ Structural clauses decided (cardillo/urdf/system_from_urdf.py):
                              that class with a matching arity
  R4 supported types          every joint type named in the property (fixed, revolute, continuous, prismatic, floating,
                              planar) has a branch; the joint class of each branch is imported
+ R6 axis scale invariance     (K6, group joint.axis -> s * joint.axis) per joint-type branch the child's relative pose and velocity
+                             (J_r_JRc, A_JRc, J_v_JRc, J_omega_JRc) have scaling degree 0 in the URDF axis: URDF gives a direction,
+                             the requested joint coordinate is a length / an angle along the NORMALISED axis
  R5 body kwargs              RigidBody / Frame bodies are constructed with keys their constructors accept
 """
 from __future__ import annotations
@@ -43,6 +46,53 @@ def ctor_signature(model, cname):
     return required, accepted, a.kwarg is not None
 
 
+def axis_invariance(ctx):
+    from fractions import Fraction
+    from ..degrees import Interp, Z, TOP, is_ground
+    rep = ctx.rep
+    mod = ctx.repo.module(URDF)
+    functions = {q: n for q, n in mod.defs().items() if isinstance(n, ast.FunctionDef) and "." not in q}
+    alg = ctx.repo.module("cardillo/math/algebra.py")
+    for q, n in alg.defs().items():
+        if isinstance(n, ast.FunctionDef) and "." not in q:
+            functions.setdefault(q, n)
+    fn = functions.get("joint_kinematics")
+    if fn is None:
+        raise AnalysisError(f"{URDF}: joint_kinematics not found")
+    C = f"{URDF}:joint_kinematics"
+    chain = [s for s in fn.body if isinstance(s, ast.If) and "joint.type" in norm_src(s.test)]
+    if len(chain) != 1:
+        raise AnalysisError(f"{C}: the joint-type dispatch was not found")
+    prelude = fn.body[: fn.body.index(chain[0])]
+    branches = []
+    node = chain[0]
+    while True:
+        branches.append((norm_src(node.test), node.body))
+        if len(node.orelse) == 1 and isinstance(node.orelse[0], ast.If):
+            node = node.orelse[0]
+        else:
+            break
+    outs = ("J_r_JRc", "A_JRc", "J_v_JRc", "J_omega_JRc")
+    for test, body in branches:
+        it = Interp(functions, attr_degs={"joint.axis": Fraction(1), "joint.name": Fraction(0), "joint.type": Fraction(0)})
+        it._stack = ["joint_kinematics"]
+        env = {"configuration": Fraction(0), "velocities": Fraction(0), "parent": TOP, "joint": TOP}
+        it.block(prelude + body, env, {}, [])
+        uses_axis = any(isinstance(w, ast.Attribute) and w.attr == "axis" for s_ in body for w in ast.walk(s_))
+        for o in outs:
+            d = env.get(o, TOP)
+            if is_ground(d) and d != 0:
+                tgt = next((w for s_ in body for w in ast.walk(s_) if isinstance(w, ast.Assign) and norm_src(w.targets[0]) == o), body[0])
+                rep.bad("C28.R6", C, tgt, f"branch `{test}`: {o} scales with |axis|^{d}: for a URDF axis that is not a unit vector the child is placed / moves "
+                        f"|axis|^{d} times the requested joint coordinate (only the direction of the axis is meaningful)", f"{URDF}:{tgt.lineno}")
+            elif d == TOP and uses_axis:
+                rep.ok("C28.R6", C, f"branch `{test}`: {o}: degree in the axis not determined (no verdict)", verdict="unknown", trivial=True)
+            else:
+                rep.ok("C28.R6", C, f"branch `{test}`: {o} has degree 0 in the URDF axis", trivial=not uses_axis)
+        for v in it.violations:
+            rep.bad("C28.R6", C, v.node, f"branch `{test}`: {v.msg} under scaling of the URDF axis", f"{URDF}:{getattr(v.node, 'lineno', '?')}")
+
+
 def run(ctx):
     rep = ctx.rep
     rep.rule("C28.R1", "joint constructor conformance per branch", 4)
@@ -50,6 +100,8 @@ def run(ctx):
     rep.rule("C28.R3", "class-level calls resolve", 2)
     rep.rule("C28.R4", "supported joint types have branches; classes imported", 6)
     rep.rule("C28.R5", "body constructor conformance", 2)
+    rep.rule("C28.R6", "relative pose and velocity of the child are invariant under scaling of the URDF axis (degree analysis)", 8)
+    axis_invariance(ctx)
     model = ctx.model
     mod = ctx.repo.module(URDF)
     fn = ctx.repo.get(URDF, "joint_kinematics")
@@ -213,4 +265,18 @@ MUTANTS = [
          old="        else:\n            J_v_JRc = np.zeros(3)\n            J_omega_JRc = np.zeros(3)\n\n    elif joint.type == \"prismatic\":",
          new="\n    elif joint.type == \"prismatic\":", expect="C28.R2"),
 ]
-NEUTRAL = []
+MUTANTS += [
+    dict(id="c28-r6-seed", canary=True, what="[seeded by sub-agent] prismatic joint: displacement and velocity along the raw (not normalised) URDF axis", file=URDF,
+         edits=[(URDF, "        J_r_JRc = displacement * e1\n", "        J_r_JRc = displacement * axis\n"), (URDF, "        J_v_JRc = velocity * e1\n", "        J_v_JRc = velocity * axis\n")],
+         expect="C28.R6"),
+    dict(id="c28-r6-2", what="revolute joint: angular velocity along the raw axis (nothing normalises it before)", file=URDF,
+         old="        J_omega_JRc = angle_dot * e1\n", new="        J_omega_JRc = angle_dot * axis\n", expect="C28.R6"),
+    dict(id="c28-r6-3", what="prismatic joint: displacement divided by the axis length twice", file=URDF,
+         old="        J_r_JRc = displacement * e1\n", new="        J_r_JRc = displacement * e1 / norm(axis)\n", expect="C28.R6"),
+]
+NEUTRAL = [
+    dict(id="c28-n1", canary=True, what="revolute joint: axis normalised in place by axis_angle_to_A, then used for the angular velocity", file=URDF,
+         edits=[(URDF, "        A_JRc = axis_angle_to_A(e1, angle)\n", "        A_JRc = axis_angle_to_A(axis, angle)\n"), (URDF, "        J_omega_JRc = angle_dot * e1\n", "        J_omega_JRc = angle_dot * axis\n")]),
+    dict(id="c28-n2", what="prismatic joint: unit direction through a helper-free normalisation of a copy", file=URDF,
+         old="        J_r_JRc = displacement * e1\n", new="        direction = axis.copy()\n        direction /= norm(direction)\n        J_r_JRc = displacement * direction\n"),
+]
